@@ -5,7 +5,7 @@ import vlib
 MANIFEST = dict(
     module="XmlIn", ref="§5 C06",
     text="XmlIn.tla describes an input as a token string over the reader's element alphabet (start/end/empty tags and character "
-         "data, placed grammatically or not, with usual / missing / unusable attributes) inside one of 23 contexts (every parse "
+         "data, placed grammatically or not, with usual / missing / unusable attributes) inside one of 24 contexts (every parse "
          "loop of the reader), one mutation of the main part (truncation after and inside every token, dropped / duplicated / "
          "swapped tags, second root, wrong root, strict / absent / default / re-declared namespace, prolog variants, bad entity, "
          "control character, invalid UTF-8, empty / absent / non-XML part, nesting depth, sibling count, text and attribute size) "
@@ -37,18 +37,18 @@ RULE = ("inputs = (context, token string, mutation, package deviation, entry poi
 Q_GROUPS = ["q-place1", "q-place2", "q-mut0", "q-mut1", "q-pkg", "q-extreme"]
 T_GROUPS = [["t-place2", "t-mut0", "t-pkg"], ["t-place3"], ["t-odd2", "t-mut2"], ["t-mut1"], ["t-extreme"]]
 BOUNDS = {
-    "q-place1": "23 contexts x <= 1 generated element over the whole alphabet (100 names), <= 1 oddity (ungrammatical placement of one of 15 names, or attribute class none/word/negative/large/2^31), no mutation, full battery",
+    "q-place1": "24 contexts x <= 1 generated element over the whole alphabet (100 names), <= 1 oddity (ungrammatical placement of one of 15 names, or attribute class none/word/negative/large/2^31), no mutation, full battery",
     "q-place2": "10 main contexts x exactly 2 generated elements over 22 names, <= 1 ungrammatical placement, no mutation",
-    "q-mut0": "23 context paths x every mutation kind (29) x every position",
-    "q-mut1": "23 contexts x one grammatical element of 22 names x every truncation and every dropped end tag",
+    "q-mut0": "24 context paths x every mutation kind (29) x every position",
+    "q-mut1": "24 contexts x one grammatical element of 22 names x every truncation and every dropped end tag",
     "q-pkg": "contexts body, tc x (10 parts x 8 breaks + 15 ZIP shapes x 3 entry points), full battery",
     "q-extreme": "contexts tc, r x one element of {p, t, tbl, text} x nesting depth 2000 / 8000 siblings / 8000-byte text and attribute / 1000 attributes on every element",
-    "t-place2": "23 contexts x <= 2 generated elements over the whole alphabet, <= 1 oddity, 4 text classes, full battery",
-    "t-place3": "23 contexts x exactly 3 generated elements (depth <= 3) over 41 names, <= 1 ungrammatical placement",
-    "t-odd2": "23 contexts x exactly 2 generated elements over 41 names, <= 2 oddities, all text classes",
-    "t-mut0": "23 context paths x every mutation kind x every position x with/without standard siblings x memory/file",
-    "t-mut1": "23 contexts x one element of 41 names (<= 1 ungrammatical) x every mutation kind x every position",
-    "t-mut2": "23 contexts x two elements of 22 names x every truncation / dropped / duplicated / swapped tag",
+    "t-place2": "24 contexts x <= 2 generated elements over the whole alphabet, <= 1 oddity, 4 text classes, full battery",
+    "t-place3": "24 contexts x exactly 3 generated elements (depth <= 3) over 41 names, <= 1 ungrammatical placement",
+    "t-odd2": "24 contexts x exactly 2 generated elements over 41 names, <= 2 oddities, all text classes",
+    "t-mut0": "24 context paths x every mutation kind x every position x with/without standard siblings x memory/file",
+    "t-mut1": "24 contexts x one element of 41 names (<= 1 ungrammatical) x every mutation kind x every position",
+    "t-mut2": "24 contexts x two elements of 22 names x every truncation / dropped / duplicated / swapped tag",
     "t-pkg": "5 contexts x (10 parts x 8 breaks + 15 ZIP shapes x 3 entry points) x with/without standard siblings, full battery",
     "t-extreme": "9 contexts x one element of 6 names x nesting depth 3000 and 100000 / 30000 and 300000 siblings, bytes of text, bytes of attribute, attributes/8",
 }
